@@ -211,6 +211,8 @@ class RunCtx:
             for w in pool.workers:
                 self.ledgers[id(w)] = WorkerLedger(w, pool)
                 self.pool_of[id(w)] = pool
+        for (w, prof, ls) in getattr(built, "preloaded", []):
+            self.ledgers[id(w)].profiles[id(prof)] = (prof, ls)
         self.live_pools = {id(p): p for p in built.worker_pools.worker_pools}
         ntasks = sum(len(tg.get_nodes()) for tg in built.workload.task_graphs.values())
         total = world["sim"]["loop_timeout"]
